@@ -78,6 +78,15 @@ def api_cases(chk, tier):
             X = pbx.gen_bounds(rng, 200, kx, dy=rng.random() < 0.5)
             Y = pbx.gen_bounds(rng, 200, ky, dy=rng.random() < 0.5)
             out.append((op, d, X, Y, (kx, ky), rng.random() < 0.35))
+    # sessions: ONE pair of operand objects goes through every operation under every dependency in a row (the operand lists are shared, so
+    # pbx.staircase_of hands the same objects to each case); every answer is decided against the bounds the operands were built from
+    for kx, ky in ((("pos", "neg"), ("straddle", "pos")) if tier == "quick" else (("pos", "neg"), ("straddle", "pos"), ("neg", "neg"), ("steps", "pos"), ("neg", "straddle"))):
+        X = pbx.gen_bounds(rng, 200, kx, dy=True)
+        Y = pbx.gen_bounds(rng, 200, ky, dy=True)
+        seq = [(op, d) for d in "poi" for op in ("Mul", "Div", "Add", "Sub") if not (op == "Div" and ky == "straddle")]
+        rng.shuffle(seq)
+        for op, d in seq[:6 if tier == "quick" else 12]:
+            out.append((op, d, X, Y, (kx, ky, "session"), rng.random() < 0.35))
     return out
 
 
@@ -86,7 +95,7 @@ def run_api(case):
     from pyuncertainnumber import pba
     op, d, X, Y, _, bare = case
     try:
-        x, y = Staircase(np.array(X[0]), np.array(X[1])), Staircase(np.array(Y[0]), np.array(Y[1]))
+        x, y = pbx.staircase_of(X), pbx.staircase_of(Y)
         if bare:
             with pba.dependency(d):
                 r = pbx.PYOPS[op](x, y)
